@@ -320,7 +320,9 @@ func genFrom(rnd *vf.Rand, sp Spec, rels []*rel, op string, last bool) *Spec {
 	g := newGen(rnd, genOpts{MaxOps: 1})
 	g.sp = Spec{Nodes: append([]PNode{}, sp.Nodes...)}
 	for _, r := range rels {
-		g.info = append(g.info, nodeInfo{kinds: r.Kinds, prefix: r.Prefix, shards: r.nshard(), ordered: r.Ordered && r.Placed, weak: r.Weak, unit: len(r.Kinds) == 0 && !r.Weak})
+		// a relation that is already large (the result of a large fan-out) gets no further large
+		// fan-out: the program would only be slow, not more revealing
+		g.info = append(g.info, nodeInfo{kinds: r.Kinds, prefix: r.Prefix, shards: r.nshard(), ordered: r.Ordered && r.Placed, weak: r.Weak, unit: len(r.Kinds) == 0 && !r.Weak, big: r.count() > 3000})
 	}
 	if !g.addOp(op, len(g.sp.Nodes)-1, last) {
 		return nil
